@@ -1281,13 +1281,16 @@ struct WorkerCtl {
 };
 
 void
-WorkerLoop(EpochManager *em0, EpochManager *em1, Cmd *c)
+WorkerLoop(EpochManager *em0, EpochManager *em1, Cmd *c, int64_t probe_start)
 {
+  tl_probe_start = probe_start;
   EpochGuard guard{};
   while (true) {
     int op = 0;
     while ((op = c->op.load(std::memory_order_acquire)) == 0) sched_yield();
-    if (op == 1) {
+    if (op == 7) {
+      c->epoch.store(IDManager::GetThreadID());
+    } else if (op == 1) {
       guard = em0->CreateEpochGuard();
       c->epoch.store(guard.GetProtectedEpoch());
     } else if (op == 4) {
@@ -1346,7 +1349,7 @@ Run()
   Result res;
   InstallSeqCrashHandler("C20");
   const uint64_t histories = 6 * g_cfg.scale;
-  uint64_t total_forwards = 0, total_checks = 0, max_nodes = 0, boundaries = 0, managers = 0, overwrites = 0;
+  uint64_t total_forwards = 0, total_checks = 0, max_nodes = 0, boundaries = 0, managers = 0, overwrites = 0, respawns = 0, id_reuses = 0;
   std::set<std::string> sigs;
   for (uint64_t h = 0; h < histories; ++h) {
     const auto base_nodes = g_aligned_live.load();
@@ -1361,7 +1364,7 @@ Run()
     std::vector<std::unique_ptr<WorkerCtl>> ws;
     for (size_t i = 0; i < nw; ++i) {
       ws.emplace_back(new WorkerCtl{});
-      ws.back()->th = std::thread(WorkerLoop, em[0], em[1], &ws.back()->cmd);
+      ws.back()->th = std::thread(WorkerLoop, em[0], em[1], &ws.back()->cmd, static_cast<int64_t>(-1));
     }
     uint64_t cur[2] = {EpochManager::kInitialEpoch, EpochManager::kInitialEpoch};
     for (int m = 0; m < 2; ++m) {
@@ -1439,7 +1442,20 @@ Run()
       } else {
         auto &w = *ws[r.Below(nw)];
         const auto k = r.Below(10);
-        if (w.mgr < 0) {
+        if (w.mgr < 0 && r.Chance(1, 12)) {
+          // thread churn inside the manager's lifetime: the worker thread exits and a new thread takes its place,
+          // steered onto the ID that was just released
+          Do(w, 7);
+          const auto old_id = w.cmd.epoch.load();
+          Do(w, 3);
+          w.th.join();
+          w.cmd.op.store(0);
+          w.th = std::thread(WorkerLoop, em[0], em[1], &w.cmd, static_cast<int64_t>((old_id + kN - 1) % kN));
+          Do(w, 7);
+          if (w.cmd.epoch.load() == old_id) ++id_reuses;
+          ++respawns;
+          sigs.insert(Fmt("model:N=%zu:worker-thread-replaced", kN));
+        } else if (w.mgr < 0) {
           const int m = (two_managers && r.Chance(1, 3)) ? 1 : 0;
           Do(w, m == 0 ? 1 : 4);
           w.mgr = m;
@@ -1514,6 +1530,8 @@ Run()
   res.Add("lists_compared_with_model", total_checks);
   res.Add("node_boundaries_crossed", boundaries);
   res.Add("guards_assigned_over_live_guard_of_other_manager", overwrites);
+  res.Add("worker_threads_replaced", respawns);
+  res.Add("worker_threads_replaced_on_same_id", id_reuses);
   res.counters["max_live_list_nodes"] = max_nodes;
   res.counters["evaluations"] = total_checks;
   for (auto &s : sigs) res.signatures.push_back(s);
